@@ -77,6 +77,51 @@ class _Eq:
         yield 'equal-means-same-function-everywhere', implies(result, t4_view(self, pt) == t4_view(other, pt))
 
 
+def _hash_key_hook(it, f, args, kw):
+    """builtin hash() replaced by the identity: the contract talks about the key that is hashed."""
+    return args[0]
+
+
+def _flat_key(k):
+    out = []
+    for x in k:
+        if isinstance(x, (tuple, list)):
+            out.extend(_flat_key(x))
+        else:
+            out.append(x)
+    return out
+
+
+@contract(SurfaceT4.__hash__, props=['C13', 'C08'], name='SurfaceT4.__hash__[consistent-with-__eq__]')
+class _Hash:
+    """Two surfaces with the same type, parameters and transform (what __eq__ compares) hash the same key, and the
+    key contains nothing else (idorigin plays no role): dictionary de-duplication can rely on __eq__ alone.
+    builtin hash() is replaced by the identity, so the statement is about the tuple that is hashed."""
+    native = False          # natively hash() returns an int: the statement only makes sense under the hook
+    hooks = {hash: _hash_key_hook}
+
+    def cases(S):
+        for typ in (T4S.PLANE, T4S.SPHERE, T4S.CYL, T4S.TORUSZ, T4S.QUAD, T4S.CONEX):
+            for tr in (False, True):
+                if typ not in (T4S.TORUSZ, T4S.PLANE, T4S.QUAD, T4S.CYL) and tr:
+                    continue
+                yield f'{typ.name}/transform={int(tr)}', {'a': _surf(S, typ, 'a', tr), 'b': _surf(S, typ, 'b', tr)}
+
+    def call(a, b):
+        return a.__hash__(), b.__hash__()
+
+    def ensures(result, a, b):
+        ka, kb = _flat_key(result[0]), _flat_key(result[1])
+        same = [x == y for x, y in zip(a.param_surface, b.param_surface)]
+        n_expected = 1 + len(a.param_surface) + (12 if a.transform is not None else 0)
+        yield 'key-is-type-parameters-transform', len(ka) == n_expected and len(kb) == n_expected and ka[0] is a.type_surface
+        if a.transform is not None:
+            for u, v in zip(list(a.transform[0].f) + list(a.transform[1].f), list(b.transform[0].f) + list(b.transform[1].f)):
+                same.append(u == v)
+        yield 'equal-surfaces-hash-the-same-key', implies(And(*same), And(*[x == y for x, y in zip(ka[1:], kb[1:])]))
+        yield 'key-determines-the-surface', implies(And(*[x == y for x, y in zip(ka[1:], kb[1:])]), And(*same))
+
+
 POOL = [SurfaceT4(T4S.PLANEX, [1.0], ['a']), SurfaceT4(T4S.PLANEX, [1.0], ['b']), SurfaceT4(T4S.PLANEX, [-1.0]),
         SurfaceT4(T4S.SPHERE, [0, 0, 0, 2.0]), SurfaceT4(T4S.SPHERE, [0.0, 0.0, 0.0, 2.0], ['dup']),
         SurfaceT4(T4S.TORUSZ, [0, 0, 0, 3, 1, 1], transform=(np.zeros(3), np.identity(3))),
@@ -173,6 +218,6 @@ EXPLANATION = {'C13': (
     'combinations and inline scores {0, 0.5, 1e9} on generated decks (same provenance and composition at every '
     'probe point as the default run).')}
 ASSUMPTIONS = {'C13': [
-    'SurfaceT4.__hash__ is not under a symbolic contract (hashes of symbolic tuples); its agreement with __eq__ is '
-    'exercised by the bounded remove_duplicate_surfaces check',
+    'SurfaceT4.__hash__: the contract is about the tuple handed to builtin hash() (hash itself is trusted: equal '
+    'tuples of floats hash equal); also exercised by the bounded remove_duplicate_surfaces check',
 ]}
